@@ -4,10 +4,12 @@ package main
 import (
 	"context"
 	"errors"
+	"flag"
 	"fmt"
 	"net/http"
 	"net/http/httptest"
 	"os"
+	"runtime"
 	"time"
 
 	"verifharness/vh"
@@ -27,8 +29,9 @@ type Op struct {
 	M string `json:"m,omitempty"` // check: up | err | 500
 }
 type Case struct {
-	Nodes []NodeCfg `json:"nodes"`
-	Ops   []Op      `json:"ops"`
+	Nodes []NodeCfg `json:"nodes,omitempty"`
+	Ops   []Op      `json:"ops,omitempty"`
+	Race  *RaceDesc `json:"race,omitempty"` // a case of stream `race` (race.go)
 }
 
 var namePool = []string{"bng-1", "bng-2", "bng-3", "bng-10", "bng-11", "a", "ab", "abc", "b", "", "node-east", "node-west", "\x00", "\xff\xfe", "olt-7"}
@@ -138,8 +141,8 @@ func genCase(r *vh.Rng, maxOps int) Case {
 			for m := 0; m < nn; m++ {
 				c.Ops = append(c.Ops, Op{K: "owner", N: m, P: k})
 			}
-		case x < 13:
-			c.Ops = append(c.Ops, Op{K: "local", N: n, P: k})
+		case x < 13: // GetOwner first: clause 0 relates IsLocalOwner to the owner answers recorded for the same (set, key)
+			c.Ops = append(c.Ops, Op{K: "owner", N: n, P: k}, Op{K: "local", N: n, P: k})
 		case x < 16:
 			c.Ops = append(c.Ops, Op{K: "ranked", N: n, P: k})
 		default:
@@ -639,16 +642,29 @@ func emit(cfg vh.Config, stream string, shard int, cases []vh.Case, extra map[st
 }
 
 func main() {
+	only := flag.String("only", "", "run this stream only (the thorough tier runs `race` again under the race detector)")
 	cfg := vh.ParseFlags()
 	if cfg.Replay != "" {
 		var c Case
 		if err := vh.LoadReplay(cfg.Replay, &c); err != nil {
 			panic(err)
 		}
+		if c.Race != nil {
+			vh.Emit(cfg, "race", raceHeader, raceFooter, []vh.Case{runRace(*c.Race)}, nil)
+			return
+		}
 		vh.Emit(cfg, "cases", header, footer, []vh.Case{run(c)}, nil)
 		return
 	}
 	r := vh.NewRng(cfg.Seed)
+	// concurrent rounds on one PeerPool (first: it forks its own generator, the other streams keep theirs)
+	rcfg := cfg
+	rcfg.Shard = 2
+	vh.Emit(rcfg, "race", raceHeader, raceFooter, raceCases(vh.NewRng(cfg.Seed^0x17c3), cfg.Thorough()), map[string]interface{}{
+		"sampled_schedules": true, "gomaxprocs": runtime.GOMAXPROCS(0)})
+	if *only == "race" {
+		return
+	}
 	var corpus []vh.Case
 	for _, f := range vh.CorpusFiles(cfg) {
 		var c Case
